@@ -3,42 +3,60 @@ import os
 import re
 from propbase import KERNEL, HARNESS
 
-MAX_PIXELS = 2 ** 56   # OctreeProofs.max_pixels: the images the theorems cover
-
-
 def _widths(ctx):
-    """Extra check: the accumulator widths regenerated into Gen/TabOctree.v must hold the sums of every image
-    of at most 2^56 pixels (Coq: C13_machine_words).  When they do not, the smallest overflowing image is
-    computed (a failing input by construction: n pixels of one colour with a 255 channel, requested palette
-    size large enough that from_image does not sub-sample) and, if it is small enough to run, confirmed by
-    inserting that many colours into an OcTree through the public API."""
-    path = os.path.join(ctx["coq"], "theories", "Gen", "TabOctree.v")
-    try:
-        text = open(path).read()
-    except OSError:
-        return {"notes": ["Gen/TabOctree.v missing: accumulator widths not checked"]}
-    vals = dict((k, int(v)) for k, v in re.findall(r"Definition (\w+) : N := (\d+)\.", text))
-    acc, cnt = vals.get("leaf_acc_bits", 64), vals.get("leaf_count_bits", 64)
-    n_acc = -(-(2 ** acc) // 255)          # smallest n with 255 * n >= 2^acc
-    n_cnt = 2 ** cnt                       # smallest n that does not fit the counter
-    res = {"coverage": {"leaf_acc_bits": acc, "leaf_count_bits": cnt,
-                        "smallest_overflowing_pixel_count": min(n_acc, n_cnt)}, "violations": [], "notes": []}
-    if 255 * MAX_PIXELS < 2 ** acc and MAX_PIXELS < 2 ** cnt:
+    """Extra check (fail-closed): the accumulator widths regenerated into Gen/TabOctree.v must hold the sums of
+    every image of at most OctreeProofs.max_pixels pixels (the Coq side is C13_machine_words).  When they do not,
+    the smallest overflowing input is computed - n copies of #ffffff through OcTree::insert, what from_image does
+    for a one-colour image of n pixels that is not sub-sampled (palette size n // 199 + 1) - written as a case of
+    kind `acc` (replayable: harness/src/c13.rs run_acc, Corr/C13Corr.v ACC) and, when n <= 60 M, run on the
+    real code with `snt_harness tool c13acc`.  It is reported as a failing input when the real code panics or
+    returns another colour, and when it is too large to run (failing by construction); when the real code
+    nevertheless returns the colour it is reported as a broken obligation without failing input."""
+    res = {"coverage": {}, "violations": [], "notes": []}
+
+    def broken(msg):
+        res["violations"].append({"kind": "broken-correspondence", "what": msg, "case": {"kind": "acc-widths"}})
         return res
-    n = min(n_acc, n_cnt)
-    case = {"kind": "accumulator-overflow", "pixels": n, "colour": [255, 255, 255], "palette_size": n // 199 + 1,
+
+    try:
+        text = open(os.path.join(ctx["coq"], "theories", "Gen", "TabOctree.v")).read()
+        proofs = open(os.path.join(ctx["coq"], "theories", "Image", "OctreeProofs.v")).read()
+    except OSError as e:
+        return broken("accumulator widths cannot be checked: %s" % e)
+    vals = dict((k, int(v)) for k, v in re.findall(r"Definition (\w+) : N := (\d+)\.", text))
+    m = re.search(r"Definition max_pixels : N := (\d+)\.", proofs)
+    missing = [k for k in ("leaf_acc_bits", "leaf_count_bits", "leaf_acc_limit", "leaf_count_limit") if k not in vals]
+    if missing or not m:
+        return broken("accumulator widths cannot be checked: %s not found" % (missing or "max_pixels"))
+    max_pixels = int(m.group(1))
+    acc, cnt = vals["leaf_acc_bits"], vals["leaf_count_bits"]
+    if vals["leaf_acc_limit"] != 2 ** acc or vals["leaf_count_limit"] != 2 ** cnt:
+        return broken("Gen/TabOctree.v is inconsistent: limits are not 2^bits")
+    n = min(-(-(2 ** acc) // 255), 2 ** cnt)      # smallest n with 255 * n >= 2^acc, or not fitting the counter
+    res["coverage"] = {"leaf_acc_bits": acc, "leaf_count_bits": cnt, "max_pixels": max_pixels,
+                       "smallest_overflowing_pixel_count": n}
+    if n > max_pixels:
+        return res                                  # adequate: nothing to report
+    case = {"kind": "acc", "pixels": n, "colour": [255, 255, 255], "palette_size": n // 199 + 1,
             "leaf_acc_bits": acc, "leaf_count_bits": cnt}
     what = ("the property fails for an image of %d pixels of colour #ffffff (requested palette size %d, not sub-sampled): "
-            "the octree leaf accumulators are declared %d / %d bits wide, 255 * %d does not fit; debug builds panic, "
+            "the octree leaf accumulators are declared %d / %d bits wide and 255 * %d does not fit; debug builds panic, "
             "release builds wrap and the palette colour is no longer the image colour" % (n, n // 199 + 1, acc, cnt, n))
+    kind = "failing-input"
     if n <= 60_000_000 and ctx.get("exe"):
         rc, out = ctx["sh"]([ctx["exe"], "tool", "c13acc", str(n), "255", "255", "255"], timeout=900)
-        verdict = (out or "").strip().splitlines()[-1] if (out or "").strip() else "no output (rc=%d)" % rc
+        lines = (out or "").strip().splitlines()
+        verdict = lines[-1] if lines else "no output (rc=%d)" % rc
         case["confirmed_by_OcTree_insert"] = verdict
         what += "; OcTree::insert x %d + build_palette on the real code: %s" % (n, verdict)
         if verdict.startswith("ok"):
-            res["notes"].append("computed overflow at %d pixels was NOT confirmed by the implementation (%s)" % (n, verdict))
-    res["violations"].append({"kind": "failing-input", "what": what, "case": case})
+            kind = "broken-correspondence"
+            what += " - the computed input does NOT fail on the real code: the width obligation is broken, the model of the accumulators is wrong"
+        elif not (verdict.startswith("panic") or verdict.startswith("wrong")):
+            kind = "broken-correspondence"
+    else:
+        what += "; too large to run (failing by construction)"
+    res["violations"].append({"kind": kind, "what": what, "case": case})
     return res
 
 
@@ -50,15 +68,17 @@ PROP = {'gen': ['octree'],
  'props_module': 'Props.C13',
  'corr_check': 'SNT.Corr.C13Corr.c13_check (models Image/KDTree.v, Image/Octree.v, Image/Quantize.v vs '
                'surf_n_term::image::{KDTree, ColorPalette, OcTree} and Image::quantize)',
- 'level_text': 'Coq theorems over executable models of KDTree, OcTree (packed OcTreePath proved equal to its lane-wise form for every '
-               'colour), ColorPalette::from_image and Image::quantize: nearest-colour search returns a minimal-distance entry for every '
-               'palette (any length >= 1, duplicates) and every query; for every non-empty image and every requested size >= 1 (up to '
-               'usize::MAX since the saturating-product fix) palette extraction terminates (explicit fuel bound, stale caches and '
-               'unreachable!() arms as Panic sites included) with 1..max(k,8) colours, every index is valid for any dithering error, '
-               'undithered pixels map to nearest entries, images whose colours fit are reproduced exactly with and without dithering; '
-               'the Floyd-Steinberg slots stay within 255.0 (exactness of the f32 arithmetic); leaf accumulators are checked machine words of '
-               'the regenerated widths, proved not to overflow for images of at most 2^56 pixels (C13_machine_words). Models tied to the code by exact '
-               'differential runs incl. sub-sampled images up to 10k pixels, crops of large parents and the Rnd stream.',
+ 'level_text': 'Coq theorems over executable models of KDTree, OcTree, ColorPalette::from_image and Image::quantize. C13_nearest: for every '
+               'palette (any length >= 1, duplicates) and every query the search returns a minimal-distance entry. The four theorems named '
+               '_upto_2p56px assume an image / colour list of at most 2^56 entries: for every such non-empty input and every requested size '
+               '>= 1 (up to usize::MAX) palette extraction never panics (unreachable!() arms and overflow of the leaf accumulators, modelled '
+               'as checked words of the regenerated widths, are excluded inside these theorems by the ratio/mass invariants), terminates '
+               '(explicit fuel bound, stale caches included) with 1..max(k,8) colours; every index is valid for any dithering error; '
+               'undithered pixels map to nearest entries; images whose colours fit and that are not sub-sampled are reproduced exactly with '
+               'and without dithering. Auxiliary lemmas (not counted): packed OcTreePath = lane-wise path for every colour; the declared '
+               'widths cover 2^56 pixels; one row of the error diffusion keeps every slot within 255.0 (the binary32 exactness itself is an '
+               'argument in design/C13.md). Models tied to the code by exact differential runs incl. sub-sampled images up to 10k pixels, '
+               'crops of large parents, huge requested sizes and the Rnd stream.',
  'level_note': 'Trusted: Coq kernel + vm_compute; hand-written models validated by the correspondence run; '
                'rasterize blend_over enters as an oracle (effective pixels). No axioms.',
  'technique': 'Coq proof (k-d invariant, octree measure/invariants, induction over pixels) + model/implementation correspondence',
